@@ -225,7 +225,39 @@ func (e *pipeEnv) genScript(t string) {
 	n := 8 + r.Intn(25)
 	names := []string{"a", "b", "c", "interfaces", "state"}
 	var used [][]string
+	// leaves the script has set with elem-encoded single updates and not deleted since (for the resync idiom)
+	type liveLeaf struct {
+		full   []string
+		origin string
+		elems  []*pb.PathElem
+		val    pipeVal
+		ts     int64
+	}
+	var live []liveLeaf
+	dropLive := func(del []string) {
+		kept := live[:0]
+		for _, l := range live {
+			if len(del) <= len(l.full) && strings.Join(l.full[:len(del)], "\x00") == strings.Join(del, "\x00") {
+				continue
+			}
+			kept = append(kept, l)
+		}
+		live = kept
+	}
 	for i := 0; i < n; i++ {
+		if len(live) >= 2 && r.Intn(8) == 0 {
+			// the resync idiom: one notification re-asserts a leaf with a timestamp the collector has already passed
+			// (refused as stale - nothing changes) and deletes another, older leaf (which must go all the same)
+			a, b := live[r.Intn(len(live))], live[r.Intn(len(live))]
+			if a.origin == b.origin && b.ts < a.ts-1 && strings.Join(a.full, "\x00") != strings.Join(b.full, "\x00") {
+				rn := &pb.Notification{Timestamp: a.ts - 1, Prefix: &pb.Path{Origin: a.origin},
+					Update: []*pb.Update{{Path: &pb.Path{Elem: a.elems}, Val: a.val.tv}},
+					Delete: []*pb.Path{{Elem: b.elems}}}
+				e.w.Emit(trace.E{"ev": "tsend", "t": t, "k": "del", "p": b.full})
+				dropLive(b.full)
+				pt.script = append(pt.script, &pb.SubscribeResponse{Response: &pb.SubscribeResponse_Update{Update: rn}})
+			}
+		}
 		// full path: 1-3 elements, some keyed
 		var elems []*pb.PathElem
 		for k, m := 0, 1+r.Intn(3); k < m; k++ {
@@ -304,6 +336,7 @@ func (e *pipeEnv) genScript(t string) {
 			n.Update = []*pb.Update{{Path: path, Val: v.tv}}
 			e.w.Emit(trace.E{"ev": "tsend", "t": t, "k": "del", "p": append([]string{eff}, idxNoOrigin(prefix, dp)...)})
 			e.w.Emit(trace.E{"ev": "tsend", "t": t, "k": "upd", "p": full, "val": v.tok, "gval": v.gtok})
+			dropLive(append([]string{eff}, idxNoOrigin(prefix, dp)...))
 		} else if r.Intn(5) == 0 {
 			// delete: the leaf itself or its parent subtree
 			dp := path
@@ -314,10 +347,15 @@ func (e *pipeEnv) genScript(t string) {
 			}
 			n.Delete = []*pb.Path{dp}
 			e.w.Emit(trace.E{"ev": "tsend", "t": t, "k": "del", "p": fullDel})
+			dropLive(fullDel)
 		} else {
 			v := genPipeVal(r)
 			n.Update = []*pb.Update{{Path: path, Val: v.tv}}
 			e.w.Emit(trace.E{"ev": "tsend", "t": t, "k": "upd", "p": full, "val": v.tok, "gval": v.gtok})
+			dropLive(full)
+			if len(path.GetElement()) == 0 && (prefix == nil || len(prefix.GetElement()) == 0) {
+				live = append(live, liveLeaf{full: full, origin: origin, elems: elems, val: v, ts: n.Timestamp})
+			}
 		}
 		pt.script = append(pt.script, &pb.SubscribeResponse{Response: &pb.SubscribeResponse_Update{Update: n}})
 		if r.Intn(6) == 0 {
